@@ -184,7 +184,7 @@ theorem SpellsM_cons (c : Cfg) (props : List PropDef) (fs : Fields) (used : List
 
 mutual
 theorem spellsV_dec (c : Cfg) (hs : c.env.flat = true)
-    (hA : c.protoToAny = false ∨ c.env.noAny = true) (fld : Field) (vv : PVal) (t : PTree)
+    (hA : c.protoToAny = false ∨ c.env.noJ5Any = true) (fld : Field) (vv : PVal) (t : PTree)
     (hfs : fieldSimple fld = true) (hok : valOk c.env c.O fld vv = true) (h : SpellsV c fld vv t) :
     Dec c fld vv t := by
   cases t with
@@ -301,7 +301,7 @@ theorem spellsV_dec (c : Cfg) (hs : c.env.flat = true)
 termination_by sizeOf t
 
 theorem spellsM_loop (c : Cfg) (hs : c.env.flat = true)
-    (hA : c.protoToAny = false ∨ c.env.noAny = true) (props : List PropDef) (fs : Fields)
+    (hA : c.protoToAny = false ∨ c.env.noJ5Any = true) (props : List PropDef) (fs : Fields)
     (hroot : rootFlat c.env (.object props) = true) (hsort : asorted fs = true)
     (hfok : fieldsOk c.env c.O props fs = true) (hgrp : groupsOk props fs = true)
     (ms : PMembers) (used : List Bytes) (h : SpellsM c props fs used ms)
@@ -474,7 +474,7 @@ theorem spellsM_loop (c : Cfg) (hs : c.env.flat = true)
 termination_by sizeOf ms
 
 theorem spellsO_dec (c : Cfg) (hs : c.env.flat = true)
-    (hA : c.protoToAny = false ∨ c.env.noAny = true) (ops : List PropDef) (fs : Fields)
+    (hA : c.protoToAny = false ∨ c.env.noJ5Any = true) (ops : List PropDef) (fs : Fields)
     (hroot : rootSimple (.oneof ops) = true)
     (hvals : ∀ q ∈ ops, ∀ k v, q.path = [k] → aget k fs = some v →
       valOk c.env c.O q.field v = true ∧ (q.pres == .imp && v.isZero) = false)
@@ -528,7 +528,7 @@ theorem spellsO_dec (c : Cfg) (hs : c.env.flat = true)
 termination_by sizeOf ms
 
 theorem spellsE_dec (c : Cfg) (hs : c.env.flat = true)
-    (hA : c.protoToAny = false ∨ c.env.noAny = true) (item : Field) (vs : List PVal) (xs : PElems)
+    (hA : c.protoToAny = false ∨ c.env.noJ5Any = true) (item : Field) (vs : List PVal) (xs : PElems)
     (hi : itemSimple item = true) (hlok : listOk c.env c.O item vs = true) (h : SpellsE c item vs xs)
     (acc : List PVal) : decElems c item xs acc = .ok (acc ++ vs, .closed) := by
   cases xs with
@@ -546,7 +546,7 @@ theorem spellsE_dec (c : Cfg) (hs : c.env.flat = true)
 termination_by sizeOf xs
 
 theorem spellsMap_dec (c : Cfg) (hs : c.env.flat = true)
-    (hA : c.protoToAny = false ∨ c.env.noAny = true) (item : Field) (kvs : List (Bytes × PVal))
+    (hA : c.protoToAny = false ∨ c.env.noJ5Any = true) (item : Field) (kvs : List (Bytes × PVal))
     (ms : PMembers) (hi : itemSimple item = true) (seen : List Bytes)
     (hmok : mapOk c.env c.O item seen kvs = true) (h : SpellsMap c item kvs ms)
     (acc : List (Bytes × PVal)) (hacc : ∀ k, k ∉ seen → mget k acc = none) :
@@ -578,7 +578,7 @@ open J5V.Go J5V.Json
 
 /-- **every admissible spelling of a representable message decodes to exactly that message** -/
 theorem spells_root_decodes (c : Cfg) (hs : c.env.flat = true)
-    (hA : c.protoToAny = false ∨ c.env.noAny = true) (root : String) (m : Fields) (t : PTree)
+    (hA : c.protoToAny = false ∨ c.env.noJ5Any = true) (root : String) (m : Fields) (t : PTree)
     (hok : valOk c.env c.O (.object root) (.msg m) = true ∨ valOk c.env c.O (.oneof root) (.msg m) = true)
     (h : SpellsRoot c root m t) : decRootTree c root t = .ok m := by
   unfold SpellsRoot at h
